@@ -134,6 +134,15 @@ pub mod async_lock_shim {
             self.0.lock().await
         }
         pub fn lock_blocking(&self) -> MutexGuard<'_, T> {
+            // under a controlled (single-threaded) executor a blocking acquisition of a lock
+            // that is held by a suspended task can never succeed: report the deadlock instead
+            // of hanging the harness
+            if super::installed() {
+                return self
+                    .0
+                    .try_lock()
+                    .expect("verif: lock_blocking would deadlock - the lock is held by a suspended task");
+            }
             self.0.lock_blocking()
         }
         pub fn try_lock(&self) -> Option<MutexGuard<'_, T>> {
